@@ -173,7 +173,7 @@ let handle (line : string) : string =
     (match Str.split (Str.regexp_string "\t@@\t") rest with
      | [c; impl] ->
        (match split_on ' ' c with
-        | [ty; rows; cols; ops] ->
+        | [ty; rows; cols; _cap; ops] ->
           let ops = parse_ops ops in
           let ibytes =
             (try
@@ -186,8 +186,14 @@ let handle (line : string) : string =
               | Some bs ->
                 (match spec_parse bs with
                  | Some p when wf_fst_b bs ->
+                   (* the footer checksum must be the masked CRC-32C of all preceding bytes *)
+                   let n = List.length bs in
+                   let body = List.filteri (fun i _ -> i < n - 4) bs in
+                   let ck = (match p.p_checksum with
+                       | Some c -> if string_of_n c = string_of_n (model_masked_crc32c body) then "ok" else "BAD"
+                       | None -> "none") in
                    "v=" ^ string_of_n p.p_version ^ ";ty=" ^ string_of_n p.p_ty ^ ";c=" ^ str_kvs p.p_content
-                   ^ ";len=" ^ string_of_n p.p_len ^ ";nodes=" ^ string_of_int (List.length p.p_nodes)
+                   ^ ";len=" ^ string_of_n p.p_len ^ ";nodes=" ^ string_of_int (List.length p.p_nodes) ^ ";ck=" ^ ck
                  | _ -> "MALFORMED")) in
           let b0 = new_builder (n_of_string ty) (n_of_string rows) (n_of_string cols) in
           let (b1, _) = run_extend b0 ops in
